@@ -10,7 +10,8 @@ from .common import Viol, boundary
 FLAVOURS = ("prod", "san")
 RULE = ("(a) invocation catalogue x generator: every tool with fully specified inputs (dates, "
         "date-times with seconds, explicit formats and zones) and underspecified inputs with --base "
-        "(month-day without year, two-digit years); each run under the baseline environment and "
+        "(month-day without year, two-digit years, a bare time with --zone / --from-zone of a zone with "
+        "daylight saving); each run under the baseline environment and "
         "under 3 generated environments: TZ in {unset, UTC, America/New_York, Asia/Kolkata, "
         "Pacific/Apia, EST5EDT, :/etc/localtime, garbage}, LANG/LC_ALL/LC_TIME in {unset, C, POSIX, "
         "de_DE.UTF-8, tr_TR.UTF-8, ja_JP.eucJP, garbage}, wall clock (LD_PRELOAD on the unsanitised "
@@ -29,7 +30,7 @@ ASSUMPTIONS = ["the clock is faked at libc level (time, gettimeofday, clock_gett
 PRELOAD = os.path.join(os.path.dirname(os.path.dirname(os.path.dirname(os.path.abspath(__file__)))), "build", "fakeclock.so")
 TZS = [None, "UTC", "America/New_York", "Asia/Kolkata", "Pacific/Apia", "Europe/London", "EST5EDT", ":/etc/localtime", "Mars/Olympus"]
 LCS = [None, "C", "POSIX", "de_DE.UTF-8", "tr_TR.UTF-8", "ja_JP.eucJP", "xx_YY.bogus"]
-CLOCKS = [1, 86399, 68169599, 951825600, 2147483648, 2147483647, 4102444799, 1330560000, 1356998399]
+CLOCKS = [1, 86399, 68169599, 951825600, 2147483648, 2147483647, 4102444799, 1330560000, 1356998399, 1341100800, 1500000000, 1468540800]
 
 
 def ensure_preload():
@@ -78,9 +79,19 @@ def dt(rnd, B, with_time=True):
     return n, s, R.f_ymd(n) + ("T" + R.hms(s) if with_time else "")
 
 
+_Z = {}
+
+
+def _zone(name):
+    if name not in _Z:
+        from .. import tzif
+        _Z[name] = tzif.load("/usr/share/zoneinfo/" + name)
+    return _Z[name]
+
+
 def gen_invocation(rnd, B):
     """returns (tool, args, stdin, expected stdout or None, tag)"""
-    k = rnd.randrange(16)
+    k = rnd.randrange(18)
     n, s, d = dt(rnd, B, rnd.random() < 0.5)
     n2, s2, d2 = dt(rnd, B, "T" in d)
     if k == 0:
@@ -116,6 +127,21 @@ def gen_invocation(rnd, B):
         return "dconv", ["-S", "-f", "%d %b %Y (%a)"], lines.encode(), None, "dconv:-S"
     if k == 11:
         return "dconv", ["-i", "%d %b %Y", "%02d %s %04d" % (R.ymd(n)[2], R.MON_ABBR[R.ymd(n)[1] - 1], R.ymd(n)[0]), "-f", "%F"], b"", R.f_ymd(n) + "\n", "dconv:-i"
+    if k >= 16:
+        # a bare time with --base and a zone: the date that decides the offset is the base, not today
+        zname = rnd.choice(["Europe/Berlin", "America/New_York", "Australia/Sydney", "America/Santiago", "Asia/Kolkata"])
+        z = _zone(zname)
+        by = rnd.randrange(1980, 2030)
+        bn = R.n_of(by, rnd.randrange(1, 13), rnd.randrange(1, 29))
+        sec = rnd.choice((43200, 3600 * rnd.randrange(4, 22) + rnd.randrange(3600)))
+        l = (bn - R.UNIX0) * 86400 + sec
+        if k == 16:
+            pre = sorted(set(u for u in (l - o for o in set(z.offs)) if z.offset_at(u) is not None and u + z.offset_at(u) == l))
+            exp = R.hms(pre[0] % 86400) + "\n" if len(pre) == 1 else None
+            return "dconv", ["-b", R.f_ymd(bn), "--from-zone", zname, R.hms(sec)], b"", exp, "base:time:from-zone"
+        off = z.offset_at(l)
+        exp = R.hms((l + off) % 86400) + "\n" if off is not None else None
+        return "dconv", ["-b", R.f_ymd(bn), "--zone", zname, "-f", "%T", R.hms(sec)], b"", exp, "base:time:zone"
     # underspecified input with --base
     by = rnd.randrange(1700, 4000)
     base = "%04d-%02d-%02d" % (by, rnd.randrange(1, 13), rnd.randrange(1, 29))
